@@ -289,6 +289,35 @@ func (propC18) Gen(r *Rng, run uint64, tier string) *Plan {
 	if exhaustive {
 		p.Tags["exhaustive_orders"] = fmt.Sprint(n)
 	}
+	if wr := r.Sub("warmup"); !cli && !raceMode() && wr.Bool(0.3) {
+		// "Repeating a query": in some of the repetitions the Engine and Querier are not
+		// fresh - they have answered this query (or a sibling over the same selection)
+		// once or twice before. Variant 0 stays the fresh-engine reference.
+		for i := 1; i < len(p.Variants); i++ {
+			if !wr.Bool(0.6) {
+				continue
+			}
+			v := &p.Variants[i]
+			v.Warmup = 1 + wr.Intn(2)
+			own := len(v.Batches)
+			if wr.Bool(0.3) {
+				for {
+					st := &c18Templates[wr.Intn(len(c18Templates))]
+					if st.twoSel && !tpl.twoSel {
+						continue
+					}
+					v.WarmupQuery = st.build(selA, selB, durText(rng))
+					break
+				}
+			} else {
+				// the seeded release orders apply to every evaluation of the query
+				for k := 0; k < v.Warmup; k++ {
+					v.Batches = append(v.Batches, v.Batches[:own]...)
+				}
+			}
+		}
+		p.Tags["warmup"] = "1"
+	}
 	pressureProb := 0.02
 	switch tpl.name {
 	case "regex_replace", "regexp", "regex", "not_regex", "label_filter_re", "line_format", "label_format_tpl", "pattern", "hello_one_space", "hello_two_spaces":
@@ -433,6 +462,8 @@ func (propC18) Check(t *testing.T, p *Plan, st *Stats) *Violation {
 			st.NoteOutcome(o)
 			st.ProbeIf(p.Variants[vi].MapSeed != 0, "nonidentity_map_order")
 			st.ProbeIf(p.Variants[vi].Mode == "parallel", "parallel_release_execution")
+			st.ProbeIf(p.Variants[vi].Warmup > 0 && o.WarmupOpens > 0, "engine_reused_after_earlier_evaluations")
+			st.ProbeIf(p.Variants[vi].Warmup > 0 && p.Variants[vi].WarmupQuery != "" && o.WarmupOpens > 0, "engine_reused_after_a_sibling_query")
 			st.ProbeIf(p.Variants[vi].Mode == "parallel" && len(p.Faults) > 0, "parallel_release_with_fault_"+p.Tags["race_fault"])
 		}
 		if o.Panic != "" {
@@ -473,11 +504,11 @@ func (propC18) Check(t *testing.T, p *Plan, st *Stats) *Violation {
 		}
 		if o.ErrClass() != first.ErrClass() {
 			return viol(vi, "C18(a:same-outcome)", "the same outcome as under release order "+fmt.Sprint(first.BatchPerms)+": "+first.ErrClass()+" "+clip(first.ErrText, 200),
-				fmt.Sprintf("under release order %v: %s %s", o.BatchPerms, o.ErrClass(), clip(o.ErrText, 200)))
+				fmt.Sprintf("under release order %v%s: %s %s", o.BatchPerms, warmupNote(&p.Variants[vi]), o.ErrClass(), clip(o.ErrText, 200)))
 		}
 		if render != firstRender {
 			return viol(vi, "C18(b:same-result)", fmt.Sprintf("the result obtained under release order %v, map seed %d: %s", first.BatchPerms, p.Variants[0].MapSeed, clip(firstRender, 500)),
-				fmt.Sprintf("under release order %v, map seed %d: %s", o.BatchPerms, p.Variants[vi].MapSeed, clip(render, 500)))
+				fmt.Sprintf("under release order %v, map seed %d%s: %s", o.BatchPerms, p.Variants[vi].MapSeed, warmupNote(&p.Variants[vi]), clip(render, 500)))
 		}
 		if p.Harness == "cli" && o.Stdout != first.Stdout {
 			return viol(vi, "C18(c:same-output)", "byte-identical output: "+clip(first.Stdout, 400), clip(o.Stdout, 400))
@@ -490,6 +521,18 @@ func (propC18) Check(t *testing.T, p *Plan, st *Stats) *Violation {
 }
 
 // ShrinkCandidates: plainer templates over the same selections.
+// warmupNote says, for a violation text, that the engine of this variant was not fresh.
+func warmupNote(v *Variant) string {
+	if v.Warmup == 0 {
+		return ""
+	}
+	q := "the same query"
+	if v.WarmupQuery != "" {
+		q = v.WarmupQuery
+	}
+	return fmt.Sprintf(", on an Engine that had evaluated %s %d time(s) before", q, v.Warmup)
+}
+
 func (propC18) ShrinkCandidates(p *Plan) []*Plan {
 	cur := p.Tags["template"]
 	if cur == "" || p.Tags["selA"] == "" {
